@@ -14,7 +14,12 @@ DEEPCOPY = ('ref', 'ext', 'copy.deepcopy')
 
 def is_deepcopy_of(t, rhs) -> bool:
     t = freeze(t)
-    return isinstance(t, tuple) and len(t) >= 4 and t[0] == 'call' and t[2] == DEEPCOPY and len(t[3]) >= 1 and t[3][0] == rhs
+    if not (isinstance(t, tuple) and len(t) >= 4 and t[0] == 'call' and t[2] == DEEPCOPY and len(t[3]) >= 1 and t[3][0] == rhs):
+        return False
+    # a memo that is not empty exempts the objects it lists from being copied: only the one-argument form (or an empty /
+    # None memo) copies everything reachable
+    extra = list(t[3][1:]) + [v for _, v in (t[4] if len(t) > 4 else ())]
+    return all(x in (('dict',), ('const', None)) for x in extra)
 
 
 def raw_occurrence(t, rhs) -> bool:
